@@ -827,10 +827,10 @@ def c20_jobs():
     for (n, mt, pt, q) in ((32, 1, 0xFE, 1), (40, 1, 1, 0), (48, 1, 1, 0), (32, 1, 3, 0), (40, 1, 8, 0), (40, 1, 7, 0), (40, 3, 0xFE, 1), (24, 2, 0x10, 1), (48, 0xFF, 0x7F, 1), (64, 3, 1, 0), (64, 3, 2, 0), (56, 1, 2, 0)):
         jobs.append(Job("c20.cpp", "h_c20_decode", defs={"NB": n, "VER": 1, "DMT": mt, "DPT": pt}, unwind=4 * n + 40, unwindset=dec_unwindset(n), tier="quick" if q else "thorough", in_max=n + 8, mem_gb=8,
                         sym="every frame byte except version, message type, the first message's flags, payload type and declared length; " + sym2, outside="frames > 64 bytes", timeout=None if q else 1800))
-    for (mt, dt, dlc, n) in ((3, 2, 4, 40), (3, 2, 9, 44), (3, 2, 9, 45), (3, 3, 12, 49), (3, 2, 4, 37), (3, 4, 3, 36), (3, 4, 3, 34), (2, 0, 0, 52), (2, 0, 0, 64)):
+    for (mt, dt, dlc, n) in ((3, 2, 4, 40), (3, 2, 9, 44), (3, 2, 9, 45), (3, 3, 12, 49), (3, 2, 4, 37), (3, 4, 3, 36), (3, 4, 3, 34), (3, 4, 3, 33), (3, 4, 0, 30), (2, 0, 0, 52), (2, 0, 0, 64)):
         jobs.append(Job("c20.cpp", "h_c20_tecmp", defs={"NB": n, "TMT": mt, "TDT": dt, "TDLC": dlc}, unwind=220,
                         unwindset={("TECMP7Decoder", None): 5, ("_M_realloc_insert", None): 5, ("_M_release", None): 3, ("_Sp_counted", None): 3},
-                        tier="quick" if (mt, dt, n) in ((3, 2, 40), (3, 2, 45), (3, 4, 36), (2, 0, 52)) else "thorough", in_max=n + 8, mem_gb=6,
+                        tier="quick" if (mt, dt, n) in ((3, 2, 40), (3, 2, 45), (3, 4, 36), (3, 4, 33), (2, 0, 52)) else "thorough", in_max=n + 8, mem_gb=6,
                         sym="every TECMP frame byte except routing byte, message type, data type, declared length and dlc; " + sym2, outside="frames > 64 bytes; TECMP capture-module status"))
     for (mt, dt, dlc, n, tier) in ((3, 2, 9, 45, "quick"),):
         jobs.append(Job("c20.cpp", "h_c20_tecmp", defs={"NB": n, "TMT": mt, "TDT": dt, "TDLC": dlc}, unwind=220, variant="o0",
@@ -853,6 +853,8 @@ def c20_jobs():
             c.timeout = 900 if c.tier == "thorough" else None
             o0.append(c)
     jobs += o0
+    # TECMP capture-module status shorter than its fixed block: must not reach the converter, which builds strings from the block
+    jobs += [j for j in tecmp_jobs() if j.entry == "h_tecmp" and j.defs["MT"] == 1 and j.defs["N"] < 64]
     for (a, b, t) in ((8, 5, 3), (1, 0, 0), (16, 16, 8)):
         jobs.append(Job("c20.cpp", "h_c20_reassembly", defs={"SL0": a, "SL1": b, "STR": t}, unwind=300, unwindset={("Decoder6decode", None): 3, ("_M_realloc_insert", None): 3, ("_Hashtable", None): 4, ("_M_release", None): 3},
                         tier="quick" if (a, b) == (8, 5) else "thorough", in_max=2 * (24 + a + b + t) + 8, mem_gb=8, variant="mapmodel",
